@@ -12,6 +12,13 @@ SHIPPED_ACTIONS6 = ACTIONS[:6]
 UNIQUE_OK = ['Exit', 'Beacon', 'Telepod', 'Door', 'MovingObstacle', 'Wall']
 
 
+def gen_seed(r):
+    """an environment seed: mostly arbitrary, sometimes a boundary value (0 is falsy; 2**32 does not fit 32 bits)"""
+    if r.random() < 0.12:
+        return r.choice([0, 0, 1, 2**31 - 1, 2**32 - 1, 2**32, 2**63 - 1])
+    return r.randrange(2**31)
+
+
 def gen_obj(r, tname, colors, depth=0, inner=None):
     """descriptor of a random object of type tname"""
     c = lambda: r.choice(colors)  # noqa: E731
@@ -418,7 +425,7 @@ def gen_hand_client(r, *, hmax=8, wmax=8, allow_stochastic=True, deterministic_o
         'unique': unique,
         'beacon': beacon,
         'via_factory': r.random() < 0.5,
-        'env_seed': env_seed if env_seed is not None else r.randrange(2**31),
+        'env_seed': env_seed if env_seed is not None else gen_seed(r),
         'strip': strip,
     }
     if len(chain) >= 2 and r.random() < 0.15:
@@ -465,7 +472,7 @@ def gen_reset_client(r, name=None, *, random_composition=True, stochastic_obs=Tr
     return {
         'kind': 'hand', 'reset': reset, 'world': None, 'pool_worlds': [], 'chain': chain, 'rewards': rewards, 'term': term, 'obs': obs,
         'actions': actions, 'types': list(BUILTIN_TYPES), 'colors': ['NONE', 'RED', 'GREEN', 'BLUE', 'YELLOW'],
-        'unique': unique, 'beacon': memory, 'via_factory': r.random() < 0.5, 'env_seed': r.randrange(2**31),
+        'unique': unique, 'beacon': memory, 'via_factory': r.random() < 0.5, 'env_seed': gen_seed(r),
         'knobs': ['composition_around_builtin_reset'] if random_composition else [],
     }
 
@@ -499,7 +506,7 @@ def gen_yaml_client(r, names=None, env_seed=None):
     return {
         'kind': 'yaml',
         'yaml': r.choice(names or SHIPPED),
-        'env_seed': env_seed if env_seed is not None else r.randrange(2**31),
+        'env_seed': env_seed if env_seed is not None else gen_seed(r),
     }
 
 
